@@ -32,10 +32,26 @@ def Err.code : Err → String
   | .XPTY0004 => "XPTY0004" | .XPST0008 => "XPST0008" | .FOTY0013 => "FOTY0013"
   | .FORG0006 => "FORG0006" | .FOAP0001 => "FOAP0001" | .XPDY0002 => "XPDY0002" | .FUEL => "FUEL"
 
-/-- items: `xs:integer`, `xs:boolean`, function item (address in the function heap) -/
+/-- items: `xs:integer`, `xs:boolean`, function item (address in the function heap), and — so that
+items of equal value but different type exist (`1`, `1.0`, `1e0`) — integer-valued `xs:decimal` and
+`xs:double` (exact below 2^53; the fragment has no division) -/
 inductive Item where
-  | int (n : Int) | bool (b : Bool) | fn (a : Nat)
+  | int (n : Int) | bool (b : Bool) | fn (a : Nat) | dec (n : Int) | dbl (n : Int)
   deriving DecidableEq, Repr, Inhabited
+
+/-- atomic types of `instance of` -/
+inductive Ty where
+  | integer | decimal | double | boolean
+  deriving DecidableEq, Repr, Inhabited
+
+/-- `item instance of xs:T` (xs:integer is derived from xs:decimal) -/
+def Ty.has : Ty → Item → Bool
+  | .integer, .int _ => true
+  | .decimal, .int _ => true
+  | .decimal, .dec _ => true
+  | .double, .dbl _ => true
+  | .boolean, .bool _ => true
+  | _, _ => false
 
 abbrev Seq := List Item
 
@@ -57,7 +73,8 @@ inductive Builtin where
 program (its syntax token), `call f args` dynamic call with `none` = the placeholder `?`,
 `par e` = `(e)`. -/
 inductive Expr where
-  | lit (n : Int) | tt | ff | emp
+  | lit (n : Int) | dlit (n : Int) | elit (n : Int) | tt | ff | emp
+  | inst (t : Ty) (e : Expr)
   | var (x : Nat) | dot
   | add (a b : Expr) | sub (a b : Expr) | mul (a b : Expr)
   | gt (a b : Expr) | eq (a b : Expr)
@@ -91,15 +108,27 @@ inductive COp where | gt | eq deriving DecidableEq, Repr
 def AOp.ap : AOp → Int → Int → Int
   | .add, a, b => a + b | .sub, a, b => a - b | .mul, a, b => a * b
 
+/-- numeric item = value and type rank (0 integer, 1 decimal, 2 double) -/
+def numOf : Item → Option (Int × Nat)
+  | .int n => some (n, 0) | .dec n => some (n, 1) | .dbl n => some (n, 2)
+  | _ => none
+
+/-- numeric item of a value and a type rank -/
+def mkNum (n : Int) : Nat → Item
+  | 0 => .int n | 1 => .dec n | _ => .dbl n
+
 /-- operand of an arithmetic operator after atomization: `()` ↦ none -/
-def arithOperand : Seq → Except Err (Option Int)
+def arithOperand : Seq → Except Err (Option (Int × Nat))
   | [] => .ok none
-  | [.int n] => .ok (some n)
   | [.bool _] => .error .XPTY0004
   | [.fn _] => .error .FOTY0013
+  | [x] => match numOf x with
+    | some v => .ok (some v)
+    | none => .error .XPTY0004
   | _ => .error .XPTY0004
 
-/-- `a op b`: an empty operand gives `()`; the left operand is checked first -/
+/-- `a op b`: an empty operand gives `()`; the left operand is checked first; the result has the
+wider of the two types (numeric type promotion) -/
 def arith (op : AOp) (a b : Seq) : Except Err Seq :=
   match arithOperand a with
   | .error e => .error e
@@ -108,9 +137,9 @@ def arith (op : AOp) (a b : Seq) : Except Err Seq :=
     match arithOperand b with
     | .error e => .error e
     | .ok none => .ok []
-    | .ok (some y) => .ok [.int (op.ap x y)]
+    | .ok (some y) => .ok [mkNum (op.ap x.1 y.1) (max x.2 y.2)]
 
-/-- value comparison `gt` / `eq` on singletons of the same type -/
+/-- value comparison `gt` / `eq` on singletons: numerics by value, booleans with booleans -/
 def compareV (op : COp) (a b : Seq) : Except Err Seq :=
   match a, b with
   | [], [] => .ok []
@@ -118,27 +147,37 @@ def compareV (op : COp) (a b : Seq) : Except Err Seq :=
   | [.fn _], _ => .error .FOTY0013
   | _, [.fn _] => .error .FOTY0013
   | [_], [] => .ok []
-  | [.int x], [.int y] => .ok [.bool (match op with | .gt => decide (x > y) | .eq => decide (x = y))]
   | [.bool x], [.bool y] => .ok [.bool (match op with | .gt => x && !y | .eq => x == y)]
+  | [x], [y] => match numOf x, numOf y with
+    | some u, some v => .ok [.bool (match op with | .gt => decide (u.1 > v.1) | .eq => decide (u.1 = v.1))]
+    | _, _ => .error .XPTY0004
   | _, _ => .error .XPTY0004
 
 /-- effective boolean value -/
 def ebv : Seq → Except Err Bool
   | [] => .ok false
   | [.bool b] => .ok b
-  | [.int n] => .ok (n != 0)
+  | [.fn _] => .error .FORG0006
+  | [x] => match numOf x with
+    | some v => .ok (v.1 != 0)
+    | none => .error .FORG0006
   | _ => .error .FORG0006
 
 def Builtin.ap : Builtin → Seq → Except Err Seq
   | .abs, [] => .ok []
-  | .abs, [.int n] => .ok [.int (if n < 0 then -n else n)]
+  | .abs, [x] => match numOf x with
+    | some v => .ok [mkNum (if v.1 < 0 then -v.1 else v.1) v.2]
+    | none => .error .XPTY0004
   | .abs, _ => .error .XPTY0004
   | .count, s => .ok [.int s.length]
   | .sum, s =>
-    (s.foldlM (fun (acc : Int) (it : Item) => match it with
-      | Item.int n => Except.ok (acc + n) | Item.bool _ => Except.error Err.FORG0006
-      | Item.fn _ => Except.error Err.FOTY0013) 0).map
-      fun n => [Item.int n]
+    (s.foldlM (fun (acc : Int × Nat) (it : Item) => match it with
+      | Item.bool _ => Except.error Err.FORG0006
+      | Item.fn _ => Except.error Err.FOTY0013
+      | x => match numOf x with
+        | some v => Except.ok (acc.1 + v.1, max acc.2 v.2)
+        | none => Except.error Err.FORG0006) ((0 : Int), 0)).map
+      fun (r : Int × Nat) => [mkNum r.1 r.2]
   | .reverse, s => .ok s.reverse
   | .head, s => .ok (s.take 1)
   | .tail, s => .ok (s.drop 1)
@@ -176,7 +215,8 @@ def keyLe : List Int → List Int → Bool
 
 def keyOf (s : Seq) : Except Err (List Int) :=
   s.mapM fun it => match it with
-    | .int n => .ok n | .bool _ => .error .XPTY0004 | .fn _ => .error .FOTY0013
+    | .bool _ => .error .XPTY0004 | .fn _ => .error .FOTY0013
+    | x => match numOf x with | some v => .ok v.1 | none => .error .XPTY0004
 
 /-- insert an item in front of the first item whose key is not smaller (so before all items
 with an equal key: used from the right end of the input this keeps equal keys in input order) -/
@@ -402,6 +442,12 @@ def specMap (c : SCtx) (b : Expr) : Seq → SM Seq
 def specStep (e : Expr) (c : SCtx) : SM Seq :=
   match e with
   | .lit n => pure [.int n]
+  | .dlit n => pure [.dec n]
+  | .elit n => pure [.dbl n]
+  | .inst t e => do
+    let v ← ev e c
+    -- `e instance of xs:T`: exactly one item, of that type
+    pure [.bool (match v with | [x] => t.has x | _ => false)]
   | .tt => pure [.bool true]
   | .ff => pure [.bool false]
   | .emp => pure []
